@@ -1,6 +1,6 @@
 /-
   Driver glue for C11. Case line:
-    c11.reqs <es> <conc> <n> (<gz> <ntrans> <rd>… [<hdrerr> <ended> <ndec> <rd>…])…
+    c11.reqs <es> <mode> <n> (<gz> <ntrans> <rd>… [<hdrerr> <ended> <ndec> <rd>…])… [<nsched> <req>…]
         | (<nact> <act>…)… sids <const> <k> [<id>…]
   <rd>  = d:<hex> (n, nil) | e:<hex> (n, io.EOF) | x:<hex> (n, other error)
   <act> = i:<hex> (controller.In payload) | r:<code> (response status)
@@ -72,22 +72,28 @@ def handle (cmd : String) (args impl : List String) : Option (String × String) 
   if cmd ≠ "c11.reqs" then none else
   match args with
   | _es :: cc :: nn :: rest => do
-    let conc ← bool? cc
+    let mode ← nat? cc
+    if mode > 2 then none
+    let conc := mode == 1
     let n ← nat? nn
-    let (qes, r) ← parseReqs n rest
+    let (qes, r0) ← parseReqs n rest
+    -- mode 2: the schedule (which request is advanced to its next park point, step by step); the
+    -- model's answer does not depend on it: that is what `requests_isolated` states
+    let r ← if mode == 2 then (listOf nat? r0).bind (fun x => if x.1.all (· < n) then some x.2 else none) else some r0
     if r ≠ [] then none
     let qs := qes.map (·.1)
     let ended := qes.map (·.2)
     let acts := qs.map serve
     let k := SpecC11.countLive ended acts
     let ids := HttpConc.seqIds qs
-    let sids := if conc then ["sids", "1", toString k]
+    let sids := if mode == 2 then ["sids", "1", "1"]
+                else if conc then ["sids", "1", toString k]
                 else ["sids", "1", toString ids.length] ++ ids.map toString
     let m := unwords (acts.map (encList encAct) ++ sids)
     let p := match parseActs n impl with
       | some (ia, "sids" :: c :: kk :: _) =>
         match bool? c, nat? kk with
-        | some sc, some sk => if SpecC11.holds conc qs ended ia sc sk then "ok" else "fail"
+        | some sc, some sk => if SpecC11.holds mode qs ended ia sc sk then "ok" else "fail"
         | _, _ => "bad-impl"
       | _ => match impl with
         | t :: _ => if t.startsWith "panic" then "fail" else "bad-impl"
